@@ -207,6 +207,9 @@ pub fn es_e_sparse() -> Family {
     for r in [248..=252usize, 1553..=1559, 3114..=3119] {
         l.extend(r);
     }
+    for m in (500..=1500).step_by(250) {
+        l.extend(m - 1..=m);
+    }
     l.extend((41..3100).step_by(301));
     l.sort_unstable();
     l.dedup();
@@ -221,6 +224,10 @@ pub fn es_e(thorough: bool) -> Family {
         let mut l: Vec<usize> = (0..=320).collect();
         for r in [248..=252usize, 775..=785, 1540..=1570, 2320..=2340, 3100..=3125] {
             l.extend(r);
+        }
+        // the Base256 length field works modulo 250: both sides of every multiple of 250
+        for m in (250..=3000).step_by(250) {
+            l.extend(m - 2..=m + 2);
         }
         l.extend((321..3100).step_by(37));
         l.sort_unstable();
@@ -300,6 +307,26 @@ pub fn es_f(body_max: usize) -> Family {
                 out.push(v);
             }
         }
+    }
+    Family::list(out)
+}
+
+/// ES-F2: macro envelopes as token sequences: every sequence of up to `max_tokens` tokens from
+/// {header 05, header 06, trailer, RS, EOT, GS, "[)>", "A", "1", 0x80}. Nested and repeated
+/// envelopes, headers inside bodies, trailers in front live here.
+pub fn es_f_tokens(max_tokens: usize) -> Family {
+    let tokens: Vec<&[u8]> = vec![MACRO05, MACRO06, MACRO_TRAIL, &[0x1e], &[0x04], &[0x1d], b"[)>", b"A", b"1", &[0x80]];
+    let idx: Vec<u8> = (0..tokens.len() as u8).collect();
+    let fam = Family::Over { alpha: idx, min: 0, max: max_tokens };
+    let mut out = Vec::new();
+    let mut ix = Vec::new();
+    for i in 0..fam.size() {
+        fam.get(i, &mut ix);
+        let mut v = Vec::new();
+        for t in &ix {
+            v.extend_from_slice(tokens[*t as usize]);
+        }
+        out.push(v);
     }
     Family::list(out)
 }
